@@ -211,6 +211,8 @@ pub struct Outcome {
     pub fingerprint: u64,
     pub nontrivial: bool,
     pub ticks: u64,
+    /// library-internal loop iterations (guarded work hooks)
+    pub work: u64,
     pub events: u64,
     pub n_chars: u64,
     /// comparisons / sub-executions performed inside this run
